@@ -43,6 +43,9 @@ Fixpoint find (p s : str) : option nat :=
   | _ :: s' => option_map S (find p s')
   end.
 
+(* p occurs in s at index i (specification-level reading of `find`) *)
+Definition occ (p s : str) (i : nat) : Prop := exists a b, s = a ++ p ++ b /\ length a = i.
+
 (* s[a:b] for 0 <= a, 0 <= b *)
 Definition slice (a b : nat) (s : str) : str := skipn a (firstn b s).
 
@@ -192,6 +195,9 @@ Definition on_llm_end (st : state) : state :=
 Inductive end_mode := EndLLM (* on_llm_end, the LangChain callback *)
                     | EndEmpty (* push_chunk("") *)
                     | EndNone (* push_chunk(None) *).
+
+(* the end markers that go through push_chunk *)
+Definition is_push_end (e : end_mode) : bool := match e with EndLLM => false | _ => true end.
 
 Definition finish (e : end_mode) (st : state) : state :=
   match e with
